@@ -19,7 +19,8 @@ from tornado.iostream import StreamClosedError, UnsatisfiableReadError
 
 
 class FakeStream:
-    def __init__(self, io_loop, incoming=b"", eof=False, seg=None, max_buffer_size=104857600):
+    def __init__(self, io_loop, incoming=b"", eof=False, seg=None, max_buffer_size=104857600,
+                 slow_writes=False):
         self.io_loop = io_loop
         self.buf = bytes(incoming)
         self.eof = eof                 # peer closes after `incoming` is consumed
@@ -35,6 +36,10 @@ class FakeStream:
         self.nodelay = None
         self.read_log = []             # results handed to the protocol code, in order
         self.write_after_close = 0
+        # slow consumer: write() returns a PENDING future (bytes are recorded at once, as the real
+        # IOStream buffers them) until flush_writes() is called - models a peer that is not reading
+        self.slow_writes = slow_writes
+        self._write_futs = []
 
     # ------------------------------------------------------------------ reads
     def _try(self, kind, args):
@@ -120,7 +125,7 @@ class FakeStream:
         return self._pending is not None
 
     def writing(self):
-        return False
+        return bool(self._write_futs)
 
     # ------------------------------------------------------------------ arrival of data / EOF
     def feed(self, data):
@@ -167,8 +172,18 @@ class FakeStream:
         assert isinstance(data, (bytes, bytearray)), "write() needs bytes, got %r" % type(data)
         self.written.append(bytes(data))
         fut = Future()
-        fut.set_result(None)
+        if self.slow_writes:
+            self._write_futs.append(fut)
+        else:
+            fut.set_result(None)
         return fut
+
+    def flush_writes(self):
+        """The peer drained its socket: every pending write future resolves, in order."""
+        futs, self._write_futs = self._write_futs, []
+        for f in futs:
+            if not f.done():
+                f.set_result(None)
 
     def wire(self):
         return b"".join(self.written)
@@ -200,6 +215,11 @@ class FakeStream:
             else:
                 self.error = sys.exc_info()[1]
         self._closed = True
+        futs, self._write_futs = self._write_futs, []
+        for f in futs:
+            if not f.done():
+                f.set_exception(StreamClosedError(real_error=self.error))
+                f.exception()
         if self._pending is not None:
             kind, args, fut = self._pending
             self._pending = None
